@@ -19,6 +19,7 @@ from dep_logic.specifiers.arbitrary import ArbitrarySpecifier
 from dep_logic.specifiers.base import InvalidSpecifier as UnparsableSpecifier
 from dep_logic.specifiers.base import VersionSpecifier
 from dep_logic.specifiers.generic import GenericSpecifier
+from dep_logic.specifiers.special import EmptySpecifier
 from dep_logic.utils import DATACLASS_ARGS, OrderedSet, get_reflect_op, normalize_name
 
 if t.TYPE_CHECKING:
@@ -476,8 +477,9 @@ def _has_exact_specifier(marker: MarkerExpression) -> bool:
         # the operand is not a version (or a comma separated list of versions): the
         # atom only has its PEP 508 string meaning
         return False
-    if isinstance(specifier, ArbitrarySpecifier):
-        # `== "=3.8"` reads as the arbitrary equality `===3.8`
+    if isinstance(specifier, (ArbitrarySpecifier, EmptySpecifier)):
+        # `== "=3.8"` reads as the arbitrary equality `===3.8`, `< "empty>"` as the
+        # `<empty>` keyword
         return False
     if not marker.reversed:
         return True
